@@ -51,7 +51,21 @@
      pass), `target_legal_frame`, `target_legal_quit` are proved; NOT proved for `Step.rule` targets of table rules (needs a
      decidable totality condition on the regenerated templates; quantifier shapes excluded).  Until then "the model never
      offers an illegal step" is checked at run time (`reject … illegal-step` in the driver answer) on every real step.
-   * the termination corollary (4, second half) is NOT derived.
+   * (4) `search_terminates_prop` / `search_run_replayFresh`: in a logic without access rules every run of the search model on a
+     propositional argument is a `replayFresh` run (no re-application to a ticked node, no quit-flag step), hence has at most
+     `termBound L W arg` rule applications under every schedule and never a quit flag — `C03_terminates_partial` tied to the
+     search model (`ReachN`).  With access rules the C03 theorem itself does not apply (its fresh steps exclude frame steps).
+   * QUANTIFIER RULES are inside the model (Ptx/Search/State.lean `ncs` = `NodeConsts`, `nextConst` = `Branch.new_constant`,
+     `constsAt` / `constExceeded` = `WorldConsts` / `MaxConsts`; Targets.lean witness kinds `.newConst` / `.eachConst`, the
+     constant-limit quit path, `NodeConsts.after_apply`): every theorem above (`inv_reachable`, `search_run_deriv`, the per-kind
+     preservation, `ticked_not_target`, …) holds for the extended model.  The quantifier LAYER of the invariant is `InvQ`
+     (Ptx/Search/InvQ.lean: every node of an each-constant rule is registered; for a registered node every constant of the
+     branch is unapplied or has its instance on the branch; unapplied ⊆ branch constants; a ticked new-constant node has its
+     instance): `invq_check_sound : invBadQ L s = [] → InvQ L s`, and (2-FO) `completed_is_saturated_fo` /
+     `completed_is_saturated_fo_checked`: `Inv` + `InvQ`, no targets, no quit flag, within the world AND constant limits, a branch
+     with quantifier nodes has a constant, identity substitution idle ⇒ `L.saturatedB b = true` (side conditions `searchSideB`,
+     `quantTicksB`; all 57 logics pass).  NOT proved: `InvQ` of the initial state and its preservation (run-time `invBadQ` on
+     every state of every real run stands in); `InScope`-free statements still exclude `IdentityIndiscernability`.
    Examples use a hand-built logic (`miniS`), so a broken generated logic cannot break this file.
 -/
 import Ptx.Proofs.SearchInv
@@ -59,6 +73,8 @@ import Ptx.Proofs.SearchSat
 import Ptx.Proofs.SearchStep
 import Ptx.Proofs.SearchApply
 import Ptx.Proofs.SearchLegal
+import Ptx.Proofs.SearchQ
+import Ptx.Proofs.SearchTerm
 namespace Ptx.Props.Search
 open Ptx Ptx.Search
 
@@ -89,6 +105,59 @@ theorem completed_is_saturated (L : LogicData) (hside : searchSideB L = true)
   simp only [searchSideB, Bool.and_eq_true] at hside
   exact saturated_of_satMod hside.2
     (completed_is_saturated_partial L hside.1.1 hside.1.2 s hinv bi b hb hopen hnone hq hlim hscope)
+
+/-- (4) TERMINATION on propositional arguments, tying `C03_terminates_partial` to the search model: in a logic without access
+    rules, every run of the search model on a propositional argument is a `replayFresh` run of the calculus (`ticked_not_target`:
+    no rule is re-applied to a ticked node; no quit-flag step is ever enabled on a propositional tableau), so under EVERY
+    schedule the number of rule applications is at most `termBound L W arg` and no branch ever carries a quit flag.
+    (`ReachN L arg n s`: `s` is reachable with exactly `n` applications; searches do not count.  Logics with access rules are
+    outside `C03_terminates_partial` itself: its `Step.freshOn` admits no frame step.) -/
+theorem search_terminates_prop (L : LogicData) (W : Weights) (hfr : L.frameRules = [])
+    (hm : L.measureOKOnB RuleKey.isTF W = true) (hrows : L.tfRowsOKB = true)
+    (arg : Argument) (hp : arg.isProp = true) (n : Nat) (s : SState) (h : ReachN L arg n s) :
+    n ≤ termBound L W arg ∧ s.tab.noQuit :=
+  reachN_bound hfr hm hrows hp h
+
+/-- … and that run IS a tick-respecting replay of the calculus -/
+theorem search_run_replayFresh (L : LogicData) (W : Weights) (hfr : L.frameRules = [])
+    (hm : L.measureOKOnB RuleKey.isTF W = true) (hrows : L.tfRowsOKB = true)
+    (arg : Argument) (hp : arg.isProp = true) (n : Nat) (s : SState) (h : ReachN L arg n s) :
+    ∃ sts : List Step, sts.length = n ∧ replayFresh L (trunk L arg) sts = some s.tab :=
+  reachN_replayFresh hfr hm hrows hp h
+
+/-- (2-FO) completed ⇒ saturated for branches WITH quantifier nodes (new-constant / each-constant rules; `NodeConsts`,
+    `MaxConsts`): from `Inv` and the quantifier layer `InvQ`.  The limit hypotheses gain "within the constant limit at every
+    world"; the scope hypothesis only excludes identity substitution; `hcl` excludes the degenerate branch that has quantifier
+    nodes but no constant at all (vacuous quantification only — the parser rejects such sentences). -/
+theorem completed_is_saturated_fo (L : LogicData) (hside : searchSideB L = true) (hqt : quantTicksB L = true)
+    (s : SState) (hinv : Inv L s) (hinvq : InvQ L s) (bi : Nat) (b : Branch) (hb : s.tab[bi]? = some b) (hopen : b.closed = false)
+    (hnone : ∀ r : RuleId, targets L s r bi = [])
+    (hq : b.hasQuit = false) (hlim : exceeded s.maxWorlds b = false)
+    (hclim : ∀ w, constExceeded s.maxConsts b w = false)
+    (hcl : b.constList ≠ [] ∨ ∀ sn d w r whole l0, Node.sent sn d w ∈ b.nodes → L.ruleFor sn d = some (r, whole, l0) →
+      r.witness ≠ .newConst ∧ r.witness ≠ .eachConst)
+    (hident : L.identMissing b = []) : L.saturatedB b = true := by
+  simp only [searchSideB, Bool.and_eq_true] at hside
+  exact saturated_of_satMod hside.2
+    (satMod_fo (eachWorldNoTick_of_B hside.1.1)
+      hqt (by
+        rcases Bool.or_eq_true_iff.1 hside.1.2 with h | h
+        · exact Or.inl h
+        · exact Or.inr (by simpa using h))
+      hinv hinvq hb hopen hnone hq hlim hclim hcl hident)
+
+/-- soundness of the run-time check of the quantifier layer (`invBadQ`, evaluated by the driver next to `invBad`) -/
+theorem invq_check_sound (L : LogicData) (s : SState) (h : invBadQ L s = []) : InvQ L s := invQ_of_invBadQ h
+
+/-- (2-FO) for every state of a real run on which the driver reports no `!inv:` -/
+theorem completed_is_saturated_fo_checked (L : LogicData) (hside : searchSideB L = true) (hqt : quantTicksB L = true)
+    (s : SState) (hchk : invBad L s = []) (hchkq : invBadQ L s = []) (bi : Nat) (b : Branch)
+    (hb : s.tab[bi]? = some b) (hopen : b.closed = false) (hnone : noTargetsB L s bi = true)
+    (hq : b.hasQuit = false) (hlim : exceeded s.maxWorlds b = false)
+    (hclim : ∀ w, constExceeded s.maxConsts b w = false) (hcl : b.constList ≠ [])
+    (hident : L.identMissing b = []) : L.saturatedB b = true :=
+  completed_is_saturated_fo L hside hqt s (inv_of_invBad hchk) (invQ_of_invBadQ hchkq) bi b hb hopen (noTargets_of_B hnone)
+    hq hlim hclim (Or.inl hcl) hident
 
 /-- (1'), soundness of the run-time check: a state on which the driver's `invBad` reports nothing satisfies `Inv`. -/
 theorem inv_check_sound (L : LogicData) (s : SState) (h : invBad L s = []) : Inv L s := inv_of_invBad h
@@ -245,10 +314,12 @@ theorem ticked_not_target (L : LogicData) (s : SState) (hinv : Inv L s) (bi : Na
 
 def miniS : LogicData :=
   { (default : LogicData) with
-    name := "miniS", modal := true, frameRules := ["Reflexive"],
+    name := "miniS", modal := true, quantified := true, frameRules := ["Reflexive"],
     rules := [(⟨.op1 .neg, true, none⟩, ⟨"DoubleNegation", true, .none, [[.node ⟨.lhs, none, false⟩]]⟩),
               (⟨.op2 .conj, false, none⟩, ⟨"Conjunction", true, .none, [[.node ⟨.lhs, none, false⟩, .node ⟨.rhs, none, false⟩]]⟩),
               (⟨.op2 .disj, false, none⟩, ⟨"Disjunction", true, .none, [[.node ⟨.lhs, none, false⟩], [.node ⟨.rhs, none, false⟩]]⟩),
+              (⟨.quant .ex, false, none⟩, ⟨"Existential", true, .newConst, [[.node ⟨.lhs, none, false⟩]]⟩),
+              (⟨.quant .univ, false, none⟩, ⟨"Universal", false, .eachConst, [[.node ⟨.lhs, none, false⟩]]⟩),
               (⟨.op1 .poss, false, none⟩, ⟨"Possibility", true, .newWorld, [[.node ⟨.lhs, none, true⟩, .access]]⟩),
               (⟨.op1 .nec, false, none⟩, ⟨"Necessity", false, .eachWorld, [[.node ⟨.lhs, none, true⟩]]⟩)],
     closure := [([], false), ([⟨false, none⟩], false), ([⟨true, none⟩], false), ([⟨false, none⟩, ⟨true, none⟩], true)] }
@@ -342,6 +413,43 @@ example :
 
 /-- the progress theorems are not vacuous: targets exist in these states -/
 example : (targets miniS (SState.init miniS exTrunk) (.frame .reflexive) 0).length = 1 := by decide
+
+/-! non-vacuity of the first-order statements: `∀x Fx`, `∃x Gx`: Existential with the fresh constant, Universal for the first
+    constant, Reflexive; then nothing has a target and the branch is saturated -/
+def exTrunk3 : List Node :=
+  [.sent (.quant .univ 0 0 (.pred ⟨0, 0, 1⟩ [.var 0 0])) none (some 0),
+   .sent (.quant .ex 0 0 (.pred ⟨1, 0, 1⟩ [.var 0 0])) none (some 0)]
+def exEvs3 : List Ev :=
+  [.apply (.table ⟨.quant .ex, false, none⟩) (.rule 0 1 (some (0, 0)) none),
+   .apply (.table ⟨.quant .univ, false, none⟩) (.rule 0 0 (some (0, 0)) none),
+   .apply (.frame .reflexive) (.frame 0 .reflexive 0 0 0)]
+def exState3 : SState := (runLegal miniS (SState.init miniS exTrunk3) exEvs3).getD default
+def exBranch3 : Branch := (exState3.tab[0]?).getD default
+example : (runLegal miniS (SState.init miniS exTrunk3) exEvs3).isSome = true ∧ exBranch3.nodes.length = 5 := by decide
+example : quantTicksB miniS = true := by decide
+example : miniS.saturatedB exBranch3 = true :=
+  completed_is_saturated_fo_checked miniS (by decide) (by decide) exState3 (by decide) (by decide) 0 exBranch3 (by decide)
+    (by decide) (by decide) (by decide) (by decide) (constWithin_of_B (by decide)) (by decide) (by decide)
+
+/-! non-vacuity of the termination theorem: a propositional logic with weights, and a run with one application -/
+def miniP : LogicData :=
+  { (default : LogicData) with
+    name := "miniP",
+    rules := [(⟨.op2 .conj, false, none⟩, ⟨"Conjunction", true, .none, [[.node ⟨.lhs, none, false⟩, .node ⟨.rhs, none, false⟩]]⟩)],
+    closure := [([], false), ([⟨false, none⟩], false), ([⟨true, none⟩], false), ([⟨false, none⟩, ⟨true, none⟩], true)] }
+def unitW : Weights := ⟨fun _ => 1, fun _ => 1, fun _ => 1, fun _ => 1, fun _ => 1, fun _ => 1, fun _ => 0⟩
+def argP : Argument := ⟨[.op2 .conj (.atom 0 0) (.atom 1 0)], .atom 0 0⟩
+example : miniP.frameRules = [] ∧ miniP.measureOKOnB RuleKey.isTF unitW = true ∧ miniP.tfRowsOKB = true ∧ argP.isProp = true := by
+  decide
+example : ∃ s, ReachN miniP argP 1 s := by
+  obtain ⟨b, hb⟩ : ∃ b, b ∈ trunk miniP argP := ⟨_, List.mem_singleton.2 rfl⟩
+  have h0 := ReachN.init (L := miniP) (arg := argP) b hb
+  simp only [trunk, List.mem_singleton] at hb
+  subst hb
+  cases hs : stepEv miniP (SState.init miniP (trunk miniP argP).head!.nodes)
+      (.apply (.table ⟨.op2 .conj, false, none⟩) (.rule 0 0 none none)) with
+  | none => exact absurd hs (by decide)
+  | some s' => exact ⟨s', ReachN.apply _ _ h0 ⟨by decide, by decide⟩ hs⟩
 
 /-- the world-limit hypothesis is not idle: a state beyond the limit in which nothing has a target, no quit flag, and the
     branch is NOT saturated (Reflexive stops at the limit without a flag — known finding k2) -/
